@@ -126,9 +126,6 @@ impl crate::IncrState {
             let parents = e.parents.borrow();
             let pci = e.parent_child_indices.borrow();
             if !nec {
-                if n.height() != -1 {
-                    out.push(format!("node {id:?}: unnecessary but height = {}", n.height()));
-                }
                 if scheduled > 0 {
                     out.push(format!("node {id:?}: unnecessary but scheduled"));
                 }
